@@ -98,7 +98,8 @@ def cases(tier, seed):
 COARSE = [('aligned_2h_T4', dict(T=4, coarse='2h', win=None)), ('unaligned_tail_T5', dict(T=5, coarse='2h', win=None)),
           ('window_inside_T6', dict(T=6, coarse='2h', win=(1, 5))), ('straddles_start', dict(T=4, coarse='2h', win=(-1, 5))),
           ('straddles_end_3h', dict(T=5, coarse='3h', win=(1, 9))), ('far_before', dict(T=4, coarse='2h', win=(-5, 3))),
-          ('halfhour_to_hour', dict(T=5, coarse='h', win=None, freq='30min'))]
+          ('halfhour_to_hour', dict(T=5, coarse='h', win=None, freq='30min')),
+          ('ends_inside_unaligned_T6', dict(T=6, coarse='2h', win=(1, 4))), ('ends_inside_unaligned_3h_T8', dict(T=8, coarse='3h', win=(2, 6)))]
 
 
 # ------------------------------------------------------------------------------------------------ symbolic grid state
